@@ -121,6 +121,29 @@ def props_file(pid):
     return os.path.join(COQ, "Props", pid + ".v")
 
 
+def preamble_targets(pid):
+    """.vo files named by `From PT[.Dir] Require Import A B ...` in the string constants of tools/props/<pid>.py"""
+    mod = sys.modules.get("props." + pid.lower())
+    if mod is None:
+        return []
+    index = {}
+    for d in sorted(os.listdir(COQ)):
+        dp = os.path.join(COQ, d)
+        if os.path.isdir(dp) and d != "Run":
+            for f in os.listdir(dp):
+                if f.endswith(".v"):
+                    index.setdefault(f[:-2], "%s/%s.vo" % (d, f[:-2]))
+    out = []
+    for val in vars(mod).values():
+        if isinstance(val, str) and "From PT" in val:
+            for m in re.finditer(r"From PT(?:\.(\w+))? Require (?:Import|Export) ([^.]*)\.", val):
+                for name in m.group(2).split():
+                    t = "%s/%s.vo" % (m.group(1), name) if m.group(1) else index.get(name)
+                    if t and os.path.exists(os.path.join(COQ, t[:-1])) and t not in out:
+                        out.append(t)
+    return out
+
+
 def check_props(pid, timeout=1200):
     """Compile Props/<pid>.v (after building its dependencies) and collect the theorems it
     states and the axioms Print Assumptions reports.
@@ -132,6 +155,9 @@ def check_props(pid, timeout=1200):
     # the executable comparison module used by the correspondence run must be rebuilt too
     if os.path.exists(os.path.join(COQ, "Model", pid + "Check.v")):
         targets.append("Model/%sCheck.vo" % pid)
+    # ... and so must every library the correspondence files of this property import (their preambles are the
+    # string constants of the property module), or a library left from before the last regeneration is loaded
+    targets += [t for t in preamble_targets(pid) if t not in targets]
     ok, log = make(targets, timeout=timeout)
     res = dict(ok=ok, theorems=theorems, axioms=[], log=log, failed=None)
     if not ok:
